@@ -9,6 +9,11 @@ PLAN = {
     "C04-1": ["C04"], "C04-2": ["C04"], "C05-1": ["C05"], "C05-2": ["C05"], "C06-1": ["C05", "C06"], "C06-2": ["C04", "C06"],
     "C10-1": ["C10"], "C10-2": ["C10"], "C11-1": ["C15", "C11"], "C11-2": ["C10", "C11"], "C12-1": ["C16", "C12"], "C12-2": ["C12"],
     "C14-1": ["C07", "C14"], "C14-2": ["C14"], "C20-1": ["C05", "C20"], "C20-2": ["C20", "C04"],
+    # second round
+    "C03-1": ["C12", "C03"], "C03-2": ["C05"], "C07-1": ["C07"], "C07-2": ["C07"], "C08-1": ["C05", "C08"], "C08-2": ["C08", "C06"],
+    "C09-1": ["C09"], "C09-2": ["C09"], "C13-1": ["C13"], "C13-2": ["C13"], "C15-1": ["C15"], "C15-2": ["C15"],
+    "C16-1": ["C16"], "C16-2": ["C16", "C06"], "C17-1": ["C16", "C17"], "C17-2": ["C17"], "C18-1": ["C18"], "C18-2": ["C18"],
+    "C19-1": ["C19"], "C19-2": ["C19"],
 }
 
 
